@@ -78,7 +78,7 @@ def check(R, F, P, cfg):
     for p in tables.normal_paths(S2, limit=20000):
         t = None
         for a, tr in p.literals:
-            if a[0] == "bool" and "fold" in fmt(a[1]):
+            if a[0] == "bool" and is_has_finalized(S2, a[1]):
                 t = tr
         if t is True:
             k += 1
